@@ -108,7 +108,7 @@ struct Attrs : Profile {
     {
         return {"replace", "replace-type-change", "large-attr", "prefix-names", "dim-attr", "dimscale", "cal", "range", "datastrs",
                 "gr-attr", "vs-attr", "vsfield-attr", "vg-attr", "restart", "restart-write", "dim-renamed-with-metadata", "dimscale-retype-refused",
-                "dimscale-retype-accepted", "dimname-prefix-family"};
+                "dimscale-retype-accepted", "dimname-prefix-family", "dimname-word-permutation-pair"};
     }
 
     Plan generate(Rng &rng, bool thorough, uint64_t) override
@@ -535,15 +535,31 @@ struct Attrs : Profile {
     // a proper prefix of the next ("nest", "nesta", "nestab", ...): a lookup that compares a prefix only, or the shorter
     // length only, takes one dimension for another.  Equal names are never produced (an equal name and an equal size
     // mean "share the dimension", which is another operation).
-    std::string fresh_dimname(S &s, const std::string &unique, int64_t sel)
+    std::string fresh_dimname(S &s, const std::string &unique, int64_t sel0)
     {
-        if (modn(sel, 2) == 0)
+        // the selector arguments are small numbers: spread them (deterministically) before taking them apart
+        uint64_t sel = fnv64i((uint64_t)sel0 + 977u * (uint64_t)s.uniq, 1469598103934665603ULL) >> 8;
+        if (sel % 2 == 0)
             return unique;
-        std::string nm = "nest" + std::string("abcdefghijkl").substr(0, (size_t)modn(sel / 2, 12));
+        std::string nm = "nest" + std::string("abcdefghijkl").substr(0, (size_t)((sel / 2) % 12));
+        // a second family: names of one length made of the same 4-byte words in another order -- equal under any
+        // checksum that adds words up, equal in length, different as strings
+        bool perm_family = (sel / 32) % 3 == 0;
+        if (perm_family) {
+            static const char *w[3] = {"lat_", "lon_", "alt_"};
+            static const int   perm[6][3] = {{0, 1, 2}, {0, 2, 1}, {1, 0, 2}, {1, 2, 0}, {2, 0, 1}, {2, 1, 0}};
+            const int         *q = perm[(sel / 128) % 6];
+            nm = std::string(w[q[0]]) + w[q[1]] + w[q[2]];
+        }
         for (auto &d : s.sds)
             for (int dn = 0; dn < 2; dn++)
                 if (d.dimname[dn] == nm)
                     return unique;
+        if (perm_family)
+            for (auto &d : s.sds)
+                for (int dn = 0; dn < 2; dn++)
+                    if (d.dimname[dn].size() == 12 && d.dimname[dn].compare(3, 1, "_") == 0 && d.dimname[dn].compare(0, 4, "dim_") != 0)
+                        s.ctx.probe("dimname-word-permutation-pair");
         s.ctx.probe("dimname-prefix-family");
         return nm;
     }
